@@ -14,7 +14,7 @@ EXPLANATION = (
     "from_str_radix, ...) never runs straight into unreachable!/panic!/unwrap - Lua's literal grammar is wider than "
     "Rust's parsers; (R-PAREN, role prefix) the stated belief of block::prefix_remove_leading_newlines - a formatted "
     "Prefix::Expression is always Expression::Parentheses, else unreachable!() - holds on every layout path: no context "
-    "with which an expression in prefix role reaches the parenthesis gate removes parentheses of any kind. (R-ONCE) no formatter is applied to a node that already came out of a formatter (rebuilt tokens have no source position: the range test and format_field's unreachable!() depend on it). Decides these clauses, not the behaviour: value-dependent panics (usize "
+    "with which an expression in prefix role reaches the parenthesis gate removes parentheses of any kind. (R-ONCE) no formatter is applied to a node that already came out of a formatter (rebuilt tokens have no source position: the range test and format_field's unreachable!() depend on it). (R-SLICE) no string / slice is indexed with an offset that comes from a caller-supplied Range / usize argument. Decides these clauses, not the behaviour: value-dependent panics (usize "
     "subtraction, unwrap on positions), stack depth and running time are not decided (census reported only).")
 ASSUMPTIONS = [
     "rustc MIR and Instance::try_resolve are trusted",
@@ -342,6 +342,46 @@ def rule_census(ctx, prop):
     return rep
 
 
+
+def rule_slice(ctx, prop):
+    """caller-supplied byte offsets (the formatting range) are compared with positions, never used to cut the text"""
+    rep = Report(prop, "R-SLICE", "no string / slice of the library is indexed with an offset that comes from a caller-supplied "
+                                  "Range or usize argument (such offsets may be out of bounds, inverted or inside a UTF-8 "
+                                  "sequence: indexing panics)")
+    IDX = re.compile(r"ops::Index<|ops::IndexMut<|<impl str>::split_at|::split_at$|::get_unchecked|slice::index::")
+    for cfg, prog in ctx.programs.items():
+        n = 0
+        for f in prog.fns("stylua_lib"):
+            for b, t in f.calls():
+                c = callee(t)
+                if not IDX.search(c) or len(t["args"]) < 2:
+                    continue
+                n += 1
+                bad = None
+                work = [t["args"][1]]
+                seen = 0
+                while work and seen < 20 and bad is None:
+                    o = work.pop()
+                    seen += 1
+                    if is_const(o):
+                        continue
+                    for r in provenance(f, o, through=None):
+                        if r[0] == "arg" and 1 <= r[1] <= f.argc:
+                            ty = f.locals[r[1]]
+                            if re.search(r"(^|[<( ])(crate::)?Range\b|stylua_lib::Range|^Range$|Option<Range>|Option<usize>|^usize$", ty) \
+                                    and "ops::Range" not in ty:
+                                bad = (r[1], ty)
+                        elif r[0] == "upvar":
+                            bad = bad
+                rep.inst(f"{f.key} {c.split('::')[-1]} index not from a caller-supplied offset", {"at": f.loc(t["sp"])}, cfg, ok=bad is None)
+                if bad:
+                    rep.violation(f"{f.key} caller-offset-used-as-index arg={bad[0]}",
+                                  f"{f.path} indexes a string / slice ({c}) with an offset taken from its argument {bad[0]} : {bad[1]} "
+                                  f"(a caller-supplied range bound): an end past the input, an inverted range or a bound inside a "
+                                  f"multi-byte character makes the library call panic instead of returning", f.loc(t["sp"]), cfg)
+        rep.floor("panicking index operations examined", n, 1, cfg)
+    return rep
+
 def run(ctx):
     reps = r_exh.run_exh(ctx, "C07")
     reps.append(rule_parse(ctx, "C07"))
@@ -357,4 +397,5 @@ def run(ctx):
                                        "is the first of its block: format_code panics on a valid program"))
     import r_raw
     reps.append(r_raw.rule_once(ctx, "C07"))
+    reps.append(rule_slice(ctx, "C07"))
     return reps
